@@ -1,8 +1,10 @@
 """C19 — layout regions rotate and extract consistently with the arrays they index."""
+import json
+
 import numpy as np
 from hypothesis import strategies as st
 
-from vp.engine import SubCheck
+from vp.engine import SubCheck, HarnessError
 
 PROPERTY = "C19"
 TECHNIQUE = ("exhaustive enumeration over bounded shapes/regions/windows/corners plus property-based testing "
@@ -12,16 +14,31 @@ RULE = (
     "corners; enum_extract: same shapes, every region x every extraction window; enum_front_trailing: shapes "
     "<=4x4 / <=6x6, every 2D region and every 1D region of length<=6/9, every pixel pair (valid, empty, reversed) "
     "and every pixels_from_end; enum_constructors: every integer 4-tuple in [-2,4]^4 / [-3,6]^4 and 2-tuple in "
-    "[-3,7]^2 / [-4,10]^2; given_*: Hypothesis shapes up to 40x40 (three layout slots, random windows, corners, "
-    "values), coordinates up to ~5000 for front/trailing and constructors. Oracles: arrays hold their own flat "
-    "index, rotation reference = fancy-index reflection (independent of negative-stride slicing), rotated region "
-    "reference = bounding box of the reflected boolean mask, extraction reference = set intersection of row/column "
-    "index ranges, front/trailing reference = slicing the parent's (or the trailing strip's) own sub-array, "
-    "constructors must raise RegionException iff a coordinate is negative or an extent is <= 0. Everything is "
-    "integer-exact (no tolerances, no tie bands). Non-trivial: rotate = corner != (1,0) and region touches an "
-    "array edge; extract = window clips exactly one side of the region or the region touches an array edge; "
-    "front/trailing = first requested pixel > 0 or parent touches the array edge; constructors = invalid input "
-    "or a unit extent. Distinct = SHA-1 of the canonical case."
+    "[-3,7]^2 / [-4,10]^2; enum_large: per axis every boundary relation between region and window (abutting on "
+    "either side, gap of one pixel, overlap of exactly one pixel, equal, equal low/high edge nested or containing, "
+    "nested, containing, clipped by one) at region starts 0..70000, 2**31-1..2**31+300 (thorough: ..2**63+5), region "
+    "lengths 1..40000 (thorough ..2**31), margins 1/2/257/300/40000, crossed with representative relations on the "
+    "other axis, frame padding 0/1/257, corners cycling, plus a 2086x2128 CCD quadrant (every named region x every "
+    "named region as window x corner); given_*: Hypothesis shapes up to 40x40 (three layout slots, random windows, "
+    "corners, values), given_large: both axes in a drawn boundary relation at drawn magnitudes (<=70000 and around "
+    "256, 2**15, 2**16, 2**31), coordinates up to 70000 / 2**31+300 for front/trailing and constructors. Oracles: "
+    "arrays hold their own flat index, rotation reference = fancy-index reflection (independent of negative-stride "
+    "slicing), rotated region reference = bounding box of the reflected boolean mask, extraction reference = set "
+    "intersection of row/column index ranges, front/trailing reference = slicing the parent's (or the trailing "
+    "strip's) own sub-array; above 1600 (rotation) / 40000 (front/trailing) cells the same statements are decided by "
+    "O(1) range arithmetic (range(n)[::-1], range slicing and range equality; the closed forms are cross-checked "
+    "against the mask / set references on every small case); constructors must raise RegionException iff a "
+    "coordinate is negative or an extent is <= 0. Purity: every Region2D / Region1D / Layout2D / pattern / array "
+    "handed to rotate_*, region_after_extraction, front/trailing methods, new_rotated_from, rotated_from_roe_corner, "
+    "layout_extracted_from, original_orientation*, extract_*_array_from is value-snapshotted before and compared "
+    "after the call; one region object, one pattern and one source layout are rotated for all four corners in turn "
+    "(never rotated back) and every earlier result is re-read after every later call; rotation chains "
+    "source->c1->c2->c3 and extraction pairs re-read the intermediate layouts. Every case is JSON round-tripped "
+    "first so equal coordinates are distinct int objects. Everything is integer-exact (no tolerances, no tie bands). "
+    "Non-trivial: rotate = corner != (1,0) and region touches an array edge; extract = window clips exactly one "
+    "side of the region or the region touches an array edge; large = a boundary relation on some axis and frame "
+    "> 256; front/trailing = first requested pixel > 0 or parent touches the array edge; constructors = invalid "
+    "input or a unit extent. Distinct = SHA-1 of the canonical case."
 )
 ASSUMPTIONS = [
     "read-out corners are passed as tuples and regions as tuples of Python ints or Region objects (what every caller in the repository and its tests does)",
@@ -29,6 +46,9 @@ ASSUMPTIONS = [
     "the docstring of rotate_array_via_roe_corner_from fixes the orientation: the read-out corner ends at the bottom-left (row H-1, column 0) and the shape is preserved, i.e. rows flip iff corner[0]==0, columns flip iff corner[1]==1",
     "numpy fancy indexing and Python set/range arithmetic are the reference for 'content of a region'",
     "Layout2D.layout_extracted_from is only required to update the regions (shape_2d of the result is not part of the statement)",
+    "coordinates are unbounded Python ints (no frame-size limit is documented), so magnitudes beyond 2**31 are valid input",
+    "a call that returns a new region/layout may share (alias) unchanged argument objects; only a change of an argument's value, or of an earlier result's value, is a violation",
+    "a pattern is any deep-copyable object with a `regions` list (what rotate_pattern_ci_via_roe_corner_from requires)",
 ]
 
 CORNERS = [[1, 0], [0, 0], [1, 1], [0, 1]]
@@ -118,47 +138,227 @@ def region_labels(r, h, w, ctx, prefix="region"):
 
 
 # ---------------------------------------------------------------------------------------------
+# purity: arguments (regions, layouts, patterns, arrays) must come back from every call unchanged
+# ---------------------------------------------------------------------------------------------
+class Pattern:
+    """Stand-in for a charge-injection pattern: any object with a `regions` list (what
+    rotate_pattern_ci_via_roe_corner_from needs)."""
+
+    def __init__(self, regions):
+        self.regions = regions
+
+
+def fresh(case):
+    """JSON round trip of the case: a live run sees exactly what a replay sees, and every integer is its own
+    object (equal coordinates above CPython's small-int cache are distinct objects, as they are for any
+    caller that computed them), so identity comparisons on ints cannot pass by accident."""
+    return json.loads(json.dumps(case))
+
+
+_CLS = []
+
+
+def snap(o):
+    """Value snapshot of an argument object."""
+    if o is None:
+        return None
+    t = type(o)
+    if t is int or t is bool or t is float or t is str:
+        return o
+    if t is tuple or t is list:
+        return [v if type(v) is int else snap(v) for v in o]
+    if not _CLS:
+        aa = _aa()
+        _CLS.extend([aa.Region2D, aa.Region1D, aa.Layout2D])
+    if t is _CLS[0]:
+        return ("Region2D", [int(o[0]), int(o[1]), int(o[2]), int(o[3])])
+    if t is _CLS[1]:
+        return ("Region1D", [int(o[0]), int(o[1])])
+    if t is _CLS[2]:
+        return ("Layout2D", snap(o.shape_2d), snap(o.original_roe_corner),
+                [snap(o.parallel_overscan), snap(o.serial_prescan), snap(o.serial_overscan)])
+    if t is Pattern:
+        return ("Pattern", [snap(r) for r in o.regions])
+    a = np.array(o, dtype=float)       # ndarray / Array2D / Array1D
+    return ("array", list(a.shape), a.tolist())
+
+
+def pure(ctx, key, mkey, fn, watch, **kw):
+    """Call implementation code on valid input (must not raise) and check that none of the watched
+    argument objects changed value."""
+    before = [snap(x) for x in watch]
+    out = ctx.impl(key, fn, **kw)
+    after = [snap(x) for x in watch]
+    ctx.comparisons += 1
+    if before != after:
+        i = next(k for k in range(len(watch)) if before[k] != after[k])
+        ctx.fail(mkey, "%s changed watched argument #%d: %s -> %s" % (key, i, str(before[i])[:160], str(after[i])[:160]))
+    return out
+
+
+def unchanged(ctx, mkey, objs, before, what):
+    after = [snap(x) for x in objs]
+    ctx.check(before == after, mkey, lambda: "%s: %s -> %s" % (what, str(before)[:200], str(after)[:200]))
+
+
+# ---------------------------------------------------------------------------------------------
 # rotation
 # ---------------------------------------------------------------------------------------------
+SMALL_CELLS = 1600     # above this only closed forms / range arithmetic are used (no index arrays)
+
+
+def reflect(a, b, n, flip):
+    return [n - b, n - a] if flip else [a, b]
+
+
+def ref_rot_region_cf(r, shape, corner):
+    return reflect(r[0], r[1], shape[0], corner[0] == 0) + reflect(r[2], r[3], shape[1], corner[1] == 1)
+
+
+_ROT_MEMO = {}
+
+
+def rot_want(r, shape, corner):
+    """Reference rotated region: reflected boolean mask for small frames (cross-checked against the closed
+    form, harness error if they ever disagree), closed form beyond."""
+    if r is None:
+        return None
+    k = (tuple(r), tuple(shape), tuple(corner))
+    if k in _ROT_MEMO:
+        return list(_ROT_MEMO[k])
+    cf = ref_rot_region_cf(r, shape, corner)
+    if shape[0] * shape[1] <= SMALL_CELLS:
+        m = ref_rot_region(r, shape, corner)
+        if m != cf:
+            raise HarnessError("closed-form reflection %s disagrees with mask reference %s" % (cf, m))
+        if len(_ROT_MEMO) < 200000:
+            _ROT_MEMO[k] = tuple(cf)
+    return cf
+
+
+def axis_selected(n, flip, A, B):
+    """Original indices held by positions A..B-1 of an axis of length n after the (optional) flip, as an
+    ascending range; O(1) at any magnitude."""
+    m = range(n)[::-1] if flip else range(n)
+    s = m[A:B]
+    return s[::-1] if flip else s
+
+
+def check_rotated_region(got, r, shape, corner, ctx, key, what):
+    """`got` must be a Region2D inside the frame selecting, in the rotated frame, exactly the original rows
+    and columns of r (range arithmetic, any magnitude) and equal the reference coordinates."""
+    aa = _aa()
+    ctx.check(isinstance(got, aa.Region2D), "rotate-region/type", "%s: result is %s" % (what, type(got).__name__))
+    g = rcoords(got)
+    h, w = shape
+    ok = (0 <= g[0] < g[1] <= h and 0 <= g[2] < g[3] <= w
+          and axis_selected(h, corner[0] == 0, g[0], g[1]) == range(r[0], r[1])
+          and axis_selected(w, corner[1] == 1, g[2], g[3]) == range(r[2], r[3]))
+    ctx.check(ok and g == rot_want(r, shape, corner), key,
+              lambda: "%s: region %s in %s -> %s want %s" % (what, r, shape, g, rot_want(r, shape, corner)))
+
+
+def corner_cycle(start):
+    i = CORNERS.index(list(start))
+    return CORNERS[i:] + CORNERS[:i]
+
+
+def check_rotate_region(shape, r, corner, ctx, arr=None, ra=None):
+    """rotate_region_via_roe_corner_from for tuple and Region2D input: reflection, commutation (when an
+    array is given), involution, argument purity."""
+    aa = _aa()
+    lu = _util()
+    shape = tuple(shape)
+    c = tuple(corner)
+    ck = ckey(corner)
+    if r is None:
+        got = lu.rotate_region_via_roe_corner_from(region=None, shape_native=shape, roe_corner=c)
+        ctx.check(got is None, "rotate-region/none", "a missing region must stay missing")
+        return None
+    first = None
+    for form in ("tuple", "Region2D"):
+        region_in = tuple(r) if form == "tuple" else aa.Region2D(region=tuple(r))
+        R = pure(ctx, "rotate-region/" + ck, "rotate-region/mutates-argument", lu.rotate_region_via_roe_corner_from,
+                 [region_in], region=region_in, shape_native=shape, roe_corner=c)
+        check_rotated_region(R, r, shape, corner, ctx, "rotate-region/reflection/" + ck, "%s input" % form)
+        if arr is not None:
+            # commutation, using the implementation's own rotation on both sides
+            sub = np.asarray(arr)[r[0]:r[1], r[2]:r[3]]
+            rot_sub = lu.rotate_array_via_roe_corner_from(array=sub, roe_corner=c)
+            ctx.equal(np.asarray(ra)[R.slice], rot_sub, "rotate/commute/" + ck,
+                      "rot(arr)[rot(region)] vs rot(arr[region]) for region %s" % (r,))
+            ctx.equal(np.asarray(ra)[R.slice], ref_rot_array(sub, corner), "rotate/commute-reference/" + ck,
+                      "rot(arr)[rot(region)] vs reference rotation of arr[region] for region %s" % (r,))
+        RR = pure(ctx, "rotate-region/twice/" + ck, "rotate-region/mutates-argument",
+                  lu.rotate_region_via_roe_corner_from, [R, region_in], region=R, shape_native=shape, roe_corner=c)
+        ctx.equal(rcoords(RR), list(r), "rotate-region/involution/" + ck, "rotating region %s twice" % (r,))
+        check_rotated_region(R, r, shape, corner, ctx, "rotate-region/mutates-argument",
+                             "first result re-read after it was rotated again")
+        first = first or R
+    return first
+
+
 def check_rotate_util(arr, r, corner, ctx):
     """layout_util level: array flips, region reflection, commutation, involution."""
-    aa = _aa()
     lu = _util()
     h, w = arr.shape
     c = tuple(corner)
     ck = ckey(corner)
 
-    ra = ctx.impl("rotate-array/" + ck, lu.rotate_array_via_roe_corner_from, array=arr, roe_corner=c)
+    ra = pure(ctx, "rotate-array/" + ck, "rotate-array/mutates-argument", lu.rotate_array_via_roe_corner_from,
+              [arr], array=arr, roe_corner=c)
     want_ra = ref_rot_array(arr, corner)
     ctx.equal(ra, want_ra, "rotate-array/orientation/" + ck, "rotated array vs index-reflection reference")
-    rra = lu.rotate_array_via_roe_corner_from(array=np.asarray(ra), roe_corner=c)
+    ra_in = np.asarray(ra)
+    rra = pure(ctx, "rotate-array/twice/" + ck, "rotate-array/mutates-argument", lu.rotate_array_via_roe_corner_from,
+               [ra_in, arr], array=ra_in, roe_corner=c)
     ctx.equal(rra, arr, "rotate-array/involution/" + ck, "rotating the array twice")
+    return ra, check_rotate_region((h, w), r, corner, ctx, arr=arr, ra=ra)
 
-    if r is None:
-        got = lu.rotate_region_via_roe_corner_from(region=None, shape_native=(h, w), roe_corner=c)
-        ctx.check(got is None, "rotate-region/none", "a missing region must stay missing")
-        return ra, None
 
-    want_R = ref_rot_region(r, (h, w), corner)
-    Rs = []
-    for form in ("tuple", "Region2D"):
-        region_in = tuple(r) if form == "tuple" else aa.Region2D(region=tuple(r))
-        R = ctx.impl("rotate-region/" + ck, lu.rotate_region_via_roe_corner_from, region=region_in,
-                     shape_native=(h, w), roe_corner=c)
-        ctx.check(isinstance(R, aa.Region2D), "rotate-region/type", "result is %s" % type(R).__name__)
-        ctx.equal(rcoords(R), want_R, "rotate-region/reflection/" + ck, "rotated region (%s input) %s" % (form, r))
-        # commutation, using the implementation's own rotation on both sides
-        sub = np.asarray(arr)[r[0]:r[1], r[2]:r[3]]
-        rot_sub = lu.rotate_array_via_roe_corner_from(array=sub, roe_corner=c)
-        ctx.equal(np.asarray(ra)[R.slice], rot_sub, "rotate/commute/" + ck,
-                  "rot(arr)[rot(region)] vs rot(arr[region]) for region %s" % (r,))
-        ctx.equal(np.asarray(ra)[R.slice], ref_rot_array(sub, corner), "rotate/commute-reference/" + ck,
-                  "rot(arr)[rot(region)] vs reference rotation of arr[region] for region %s" % (r,))
-        RR = ctx.impl("rotate-region/twice/" + ck, lu.rotate_region_via_roe_corner_from, region=R,
-                      shape_native=(h, w), roe_corner=c)
-        ctx.equal(rcoords(RR), list(r), "rotate-region/involution/" + ck, "rotating region %s twice" % (r,))
-        Rs.append(R)
-    return ra, Rs[0]
+def check_rotate_reuse(shape, r, start, ctx):
+    """One Region2D object rotated for all four corners in turn, never rotated back: every result must be
+    right, the object must keep its value, earlier results must keep theirs."""
+    aa = _aa()
+    lu = _util()
+    shape = tuple(shape)
+    obj = aa.Region2D(region=tuple(r))
+    seen = []
+    for c in corner_cycle(start):
+        R = pure(ctx, "rotate-region/reuse/" + ckey(c), "rotate-region/mutates-argument",
+                 lu.rotate_region_via_roe_corner_from, [obj], region=obj, shape_native=shape, roe_corner=tuple(c))
+        check_rotated_region(R, r, shape, c, ctx, "rotate-region/reuse/" + ckey(c),
+                             "same Region2D object reused (cycle from %s)" % (start,))
+        seen.append((R, c))
+        for R0, c0 in seen[:-1]:
+            check_rotated_region(R0, r, shape, c0, ctx, "rotate-region/earlier-result-changed",
+                                 "result for corner %s re-read after rotating for corner %s" % (c0, c))
+
+
+def check_rotate_pattern(shape, rs, start, ctx):
+    """rotate_pattern_ci_via_roe_corner_from: every region of the pattern rotated, the pattern handed in
+    (and its region objects) unchanged, for Region2D and tuple regions, one pattern reused for all corners."""
+    aa = _aa()
+    lu = _util()
+    shape = tuple(shape)
+    for form in ("Region2D", "tuple"):
+        regs = [aa.Region2D(region=tuple(r)) if form == "Region2D" else tuple(r) for r in rs]
+        pat = Pattern(list(regs))
+        seen = []
+        for c in corner_cycle(start):
+            out = pure(ctx, "rotate-pattern/" + ckey(c), "rotate-pattern/mutates-argument",
+                       lu.rotate_pattern_ci_via_roe_corner_from, [pat] + regs,
+                       pattern_ci=pat, shape_native=shape, roe_corner=tuple(c))
+            ctx.check(len(pat.regions) == len(regs) and all(a is b for a, b in zip(pat.regions, regs)),
+                      "rotate-pattern/mutates-argument", "the input pattern's region list was replaced")
+            ctx.check(len(out.regions) == len(rs), "rotate-pattern/" + ckey(c), "number of regions changed")
+            for R, r in zip(out.regions, rs):
+                check_rotated_region(R, r, shape, c, ctx, "rotate-pattern/" + ckey(c), "pattern (%s regions)" % form)
+            seen.append((out, c))
+            for o0, c0 in seen[:-1]:
+                for R, r in zip(o0.regions, rs):
+                    check_rotated_region(R, r, shape, c0, ctx, "rotate-pattern/earlier-result-changed",
+                                         "pattern for corner %s re-read after rotating for corner %s" % (c0, c))
 
 
 def make_layout(shape, regions, corner=None):
@@ -177,13 +377,64 @@ def layout_regions(layout):
     return out
 
 
+def check_layout_reuse(shape, regions, start, ctx):
+    """One source layout (built from caller-owned Region2D objects) asked for all four orientations in turn,
+    then a chain of rotations that is never undone, then rotated_from_roe_corner fed the same Region2D
+    objects for every corner.  After every call: arguments and source unchanged, every layout produced so
+    far still holds what it held when it was made."""
+    aa = _aa()
+    shape = tuple(shape)
+    inst = [None if r is None else aa.Region2D(region=tuple(r)) for r in regions]
+    L0 = aa.Layout2D(shape_2d=shape, **dict(zip(SLOTS, inst)))
+    base = [None if r is None else list(r) for r in regions]
+    made = [(L0, base, "source layout")]
+    owned = [x for x in inst if x is not None]
+
+    def recheck(after):
+        for L, want, name in made:
+            ctx.check(layout_regions(L) == want, "layout/earlier-layout-changed",
+                      lambda: "%s re-read after %s: %s want %s" % (name, after, layout_regions(L), want))
+
+    cyc = corner_cycle(start)
+    for c in cyc:
+        Lc = pure(ctx, "layout/new_rotated_from/reuse/" + ckey(c), "layout/new_rotated_from/mutates-argument",
+                  L0.new_rotated_from, [L0] + owned, roe_corner=tuple(c))
+        want = [rot_want(r, shape, c) for r in regions]
+        ctx.check(layout_regions(Lc) == want, "layout/new_rotated_from/reuse/" + ckey(c),
+                  lambda: "source reused (cycle from %s): %s -> %s want %s" % (start, regions, layout_regions(Lc), want))
+        made.append((Lc, want, "layout rotated for %s" % (c,)))
+        recheck("new_rotated_from(%s) on the source" % (c,))
+    # a chain that is never rotated back: source -> c1 -> c2 -> c3
+    L, want = made[1][0], made[1][1]
+    for c in cyc[1:3]:
+        Ln = pure(ctx, "layout/new_rotated_from/chain/" + ckey(c), "layout/new_rotated_from/mutates-argument",
+                  L.new_rotated_from, [L, L0] + owned, roe_corner=tuple(c))
+        want = [rot_want(x, shape, c) for x in want]
+        ctx.check(layout_regions(Ln) == want, "layout/new_rotated_from/chain/" + ckey(c),
+                  lambda: "chained rotation: -> %s want %s" % (layout_regions(Ln), want))
+        made.append((Ln, want, "chained layout (%s)" % (c,)))
+        recheck("chained new_rotated_from(%s)" % (c,))
+        L = Ln
+    # the classmethod fed caller-owned Region2D objects, the same objects for every corner
+    for c in cyc:
+        Lr = pure(ctx, "layout/rotated_from_roe_corner/reuse/" + ckey(c), "layout/rotated_from_roe_corner/mutates-argument",
+                  aa.Layout2D.rotated_from_roe_corner, owned + [L0], roe_corner=tuple(c), shape_native=shape,
+                  **dict(zip(SLOTS, inst)))
+        want = [rot_want(r, shape, c) for r in regions]
+        ctx.check(layout_regions(Lr) == want, "layout/rotated_from_roe_corner/reuse/" + ckey(c),
+                  lambda: "Region2D arguments reused: %s -> %s want %s" % (regions, layout_regions(Lr), want))
+        made.append((Lr, want, "rotated_from_roe_corner(%s)" % (c,)))
+        recheck("rotated_from_roe_corner(%s)" % (c,))
+
+
 def check_rotate_layout(arr, regions, corner, ctx):
     """Layout2D.rotated_from_roe_corner / new_rotated_from / original_orientation_from."""
     aa = _aa()
     h, w = arr.shape
     c = tuple(corner)
     ck = ckey(corner)
-    want = [None if r is None else ref_rot_region(r, (h, w), corner) for r in regions]
+    want = [rot_want(r, (h, w), corner) for r in regions]
+    orig = [None if r is None else list(r) for r in regions]
 
     kw = {s: (tuple(r) if r is not None else None) for s, r in zip(SLOTS, regions)}
     L1 = ctx.impl("layout/rotated_from_roe_corner/" + ck, aa.Layout2D.rotated_from_roe_corner, roe_corner=c,
@@ -194,20 +445,25 @@ def check_rotate_layout(arr, regions, corner, ctx):
               "layout/rotated_from_roe_corner/meta", "original_roe_corner / shape_2d not carried")
 
     L0 = make_layout((h, w), regions)
-    L2 = ctx.impl("layout/new_rotated_from/" + ck, L0.new_rotated_from, roe_corner=c)
+    L2 = pure(ctx, "layout/new_rotated_from/" + ck, "layout/new_rotated_from/mutates-argument", L0.new_rotated_from,
+              [L0], roe_corner=c)
     ctx.check(layout_regions(L2) == want, "layout/new_rotated_from/" + ck,
               "regions %s -> %s want %s" % (regions, layout_regions(L2), want))
     ctx.check(tuple(L2.original_roe_corner) == c and tuple(L2.shape_2d) == (h, w),
               "layout/new_rotated_from/meta", "original_roe_corner / shape_2d not carried")
-    ctx.check(layout_regions(L0) == [None if r is None else list(r) for r in regions],
-              "layout/new_rotated_from/mutates-input", "the source layout changed")
-    L3 = ctx.impl("layout/new_rotated_from/twice/" + ck, L2.new_rotated_from, roe_corner=c)
-    ctx.check(layout_regions(L3) == [None if r is None else list(r) for r in regions],
+    L3 = pure(ctx, "layout/new_rotated_from/twice/" + ck, "layout/new_rotated_from/mutates-argument",
+              L2.new_rotated_from, [L2, L0], roe_corner=c)
+    ctx.check(layout_regions(L3) == orig,
               "layout/new_rotated_from/involution/" + ck, "rotating the layout twice: %s" % (layout_regions(L3),))
+    # the intermediate layout and the source, re-read after the later rotation
+    ctx.check(layout_regions(L2) == want and layout_regions(L0) == orig, "layout/earlier-layout-changed",
+              lambda: "after rotating twice: source %s (want %s), intermediate %s (want %s)"
+              % (layout_regions(L0), orig, layout_regions(L2), want))
 
     # the rotated layout knows its original corner: original_orientation_from undoes the rotation
     ra = ref_rot_array(arr, corner)
-    back = L2.original_orientation_from(array=ra)
+    back = pure(ctx, "layout/original_orientation_from/" + ck, "layout/original_orientation_from/mutates-argument",
+                L2.original_orientation_from, [ra, L2], array=ra)
     ctx.equal(back, arr, "layout/original_orientation_from/" + ck, "original_orientation_from(rot(arr))")
     return L2
 
@@ -229,23 +485,26 @@ def check_rotate_arrays(arr, regions, corner, ctx, slim_too=True):
         r = regions[SLOTS.index(slot)]
         if r is None:
             continue
-        got = getattr(L, fn)(array=A)
+        got = pure(ctx, key, key + "/mutates-argument", getattr(L, fn), [A, L], array=A)
         want = ref_rot_array(farr[r[0]:r[1], r[2]:r[3]], corner)
         ctx.equal(np.asarray(got.native), want, key, "%s on rotated array, region %s %s" % (fn, r, ck))
         # and in the unrotated frame
         L0 = make_layout((h, w), regions)
         A0 = aa.Array2D.no_mask(values=farr.copy(), pixel_scales=1.0)
-        got0 = getattr(L0, fn)(array=A0)
+        got0 = pure(ctx, key, key + "/mutates-argument", getattr(L0, fn), [A0, L0], array=A0)
         ctx.equal(np.asarray(got0.native), farr[r[0]:r[1], r[2]:r[3]], key, "%s region %s" % (fn, r))
 
     # Array2D.original_orientation: the array is held in the rotated frame, its header names the corner
     mask = aa.Mask2D.all_false(shape_native=(h, w), pixel_scales=1.0)
     An = aa.Array2D(values=ra.copy(), mask=mask, header=aa.Header(original_roe_corner=c), store_native=True)
+    before = [snap(An)]
     got = An.original_orientation
     ctx.equal(np.asarray(got), farr, "array2d/original-orientation/" + ck,
               "native-stored Array2D(rot(arr)).original_orientation")
+    unchanged(ctx, "array2d/original-orientation/mutates-argument", [An], before, "the Array2D changed")
     if slim_too:
         key = "array2d/original-orientation-slim-stored"
+        before = [snap(A)]
         try:
             got = A.original_orientation  # Array2D.no_mask stores slim (the default storage)
         except Exception as e:  # same root cause whatever the corner: keep one key
@@ -253,9 +512,11 @@ def check_rotate_arrays(arr, regions, corner, ctx, slim_too=True):
                      % (h, w, c, type(e).__name__, str(e)[:200]))
         else:
             ctx.equal(np.asarray(got), farr, key, "slim-stored Array2D(rot(arr)).original_orientation, corner %s" % (c,))
+            unchanged(ctx, "array2d/original-orientation/mutates-argument", [A], before, "the slim-stored Array2D changed")
 
 
 def body_enum_rotate(case, ctx):
+    case = fresh(case)
     h, w, r, corner = case["h"], case["w"], case["r"], case["c"]
     arr = np.arange(h * w).reshape(h, w)
     ctx.label(ckey(corner))
@@ -264,12 +525,16 @@ def body_enum_rotate(case, ctx):
         ctx.label("shape:nonsquare")
     ctx.nt(corner != [1, 0] and touches_edge(r, h, w))
     check_rotate_util(arr, r, corner, ctx)
+    check_rotate_reuse((h, w), r, corner, ctx)
     full = [0, h, 0, w]
+    check_rotate_pattern((h, w), [r, full], corner, ctx)
     for k in range(3):  # the region visits every layout slot; the other slots hold None and the full array
         regions = [None, None, None]
         regions[k] = r
         regions[(k + 1) % 3] = full
         check_rotate_layout(arr, regions, corner, ctx)
+        if k == (r[0] + r[1] + r[2] + r[3]) % 3:
+            check_layout_reuse((h, w), regions, corner, ctx)
     check_rotate_arrays(arr, [r, None, r], corner, ctx)
     if r == full:
         check_rotate_util(arr, None, corner, ctx)
@@ -311,14 +576,28 @@ def axis_class(a0, a1, b0, b1):
     return "whole"
 
 
+def overlap_ranges(r, win):
+    """Rows and columns (original coordinates) in region ∩ window as ranges (O(1) at any magnitude); for
+    small extents cross-checked against the set intersection (harness error if they ever disagree)."""
+    rows = range(max(r[0], win[0]), min(r[1], win[1]))
+    cols = range(max(r[2], win[2]), min(r[3], win[3]))
+    if max(r[1], win[1], r[3], win[3]) <= 64:
+        srows, scols = ref_overlap(r, win)
+        if list(rows) != srows or list(cols) != scols:
+            raise HarnessError("range overlap disagrees with set overlap for %s %s" % (r, win))
+    return rows, cols
+
+
 def check_extract_one(idx, r, win, ctx, got, key_prefix, what):
-    """`got` is the implementation's region (or None) for original region r and window win."""
+    """`got` is the implementation's region (or None) for original region r and window win.  idx is the
+    frame's flat-index array, or None when the frame is too large to hold one (then only the range
+    arithmetic runs: None-ness, containment in the window, rows/columns addressed == overlap)."""
     aa = _aa()
-    rows, cols = ref_overlap(r, win)
+    rows, cols = overlap_ranges(r, win)
     ya = axis_class(r[0], r[1], win[0], win[1])
     xa = axis_class(r[2], r[3], win[2], win[3])
     cls = "y-%s/x-%s" % (ya, xa)
-    empty = (not rows) or (not cols)
+    empty = (len(rows) == 0) or (len(cols) == 0)
     if got is None:
         ctx.check(empty, key_prefix + "/spurious-none",
                   "%s: region %s window %s overlap rows %s cols %s but got None [%s]" % (what, r, win, rows, cols, cls))
@@ -332,10 +611,15 @@ def check_extract_one(idx, r, win, ctx, got, key_prefix, what):
     wh, ww = win[1] - win[0], win[3] - win[2]
     ctx.check(0 <= g[0] < g[1] <= wh and 0 <= g[2] < g[3] <= ww, key_prefix + "/outside-window",
               "%s: region %s window %s -> %s does not fit the %dx%d window [%s]" % (what, r, win, g, wh, ww, cls))
-    sub = idx[win[0]:win[1], win[2]:win[3]]
-    want = idx[np.ix_(rows, cols)]
-    ctx.equal(sub[got.slice], want, key_prefix + "/overlap",
-              "%s: region %s window %s -> %s [%s]" % (what, r, win, g, cls))
+    # rows / columns of the frame addressed through the window == the overlap (range arithmetic)
+    ctx.check(range(win[0], win[1])[g[0]:g[1]] == rows and range(win[2], win[3])[g[2]:g[3]] == cols,
+              key_prefix + "/overlap", lambda: "%s: region %s window %s -> %s, want rows %s cols %s inside the window [%s]"
+              % (what, r, win, g, rows, cols, cls))
+    if idx is not None:
+        sub = idx[win[0]:win[1], win[2]:win[3]]
+        want = idx[np.ix_(list(rows), list(cols))]
+        ctx.equal(sub[got.slice], want, key_prefix + "/overlap",
+                  "%s: region %s window %s -> %s [%s]" % (what, r, win, g, cls))
 
 
 def check_extract_util(idx, r, win, ctx):
@@ -350,38 +634,68 @@ def check_extract_util(idx, r, win, ctx):
             ri, wi = tuple(r), tuple(win)
         else:
             ri, wi = aa.Region2D(region=tuple(r)), aa.Region2D(region=tuple(win))
-        got = ctx.impl("extract", lu.region_after_extraction, original_region=ri, extraction_region=wi)
+        got = pure(ctx, "extract", "extract/mutates-argument", lu.region_after_extraction, [ri, wi],
+                   original_region=ri, extraction_region=wi)
         check_extract_one(idx, r, win, ctx, got, "extract", "region_after_extraction(%s)" % form)
+        if form == "Region2D":
+            # the same two objects used again: same answer, still unchanged
+            got2 = pure(ctx, "extract", "extract/mutates-argument", lu.region_after_extraction, [ri, wi],
+                        original_region=ri, extraction_region=wi)
+            ctx.check((got is None) == (got2 is None) and (got is None or rcoords(got) == rcoords(got2)),
+                      "extract/mutates-argument", "second call with the same Region2D objects differs")
 
 
-def check_extract_layout(idx, regions, win, ctx, corner=None):
+def check_extract_layout(idx, regions, win, ctx, corner=None, shape=None, win2=None, light=False):
+    """Layout2D.layout_extracted_from: window given as tuple and as a caller-owned Region2D; source layout
+    (built from caller-owned Region2D objects) and window unchanged; a second extraction (win2, default the
+    full frame) must leave the first result as it was."""
     aa = _aa()
-    h, w = idx.shape
-    L = make_layout((h, w), regions, corner=corner)
-    before = layout_regions(L)
-    E = ctx.impl("layout/layout_extracted_from", L.layout_extracted_from, extraction_region=tuple(win))
-    ctx.check(layout_regions(L) == before, "layout/layout_extracted_from/mutates-input", "the source layout changed")
+    h, w = idx.shape if shape is None else shape
+    inst = [None if r is None else aa.Region2D(region=tuple(r)) for r in regions]
+    owned = [x for x in inst if x is not None]
+    kw = dict(zip(SLOTS, inst))
     if corner is not None:
-        ctx.check(tuple(E.original_roe_corner) == tuple(corner), "layout/layout_extracted_from/meta",
-                  "original_roe_corner not carried")
+        kw["original_roe_corner"] = tuple(corner)
+    L = aa.Layout2D(shape_2d=(h, w), **kw)
+    wobj = aa.Region2D(region=tuple(win))
+    results = []
+    for form, wi in ((("tuple", tuple(win)),) if light else (("tuple", tuple(win)), ("Region2D", wobj))):
+        E = pure(ctx, "layout/layout_extracted_from", "layout/layout_extracted_from/mutates-input",
+                 L.layout_extracted_from, [L, wi] + owned, extraction_region=wi)
+        if corner is not None:
+            ctx.check(tuple(E.original_roe_corner) == tuple(corner), "layout/layout_extracted_from/meta",
+                      "original_roe_corner not carried")
+        for s, r in zip(SLOTS, regions):
+            got = getattr(E, s)
+            if r is None:
+                ctx.check(got is None, "layout/layout_extracted_from/none-slot", "%s was None, became %s" % (s, got))
+                continue
+            check_extract_one(idx, r, win, ctx, got, "layout/layout_extracted_from", "Layout2D.%s (%s window)" % (s, form))
+        results.append((E, layout_regions(E)))
+    if light:
+        return results[0][0]
+    w2 = tuple(win2) if win2 is not None else (0, h, 0, w)
+    E2 = pure(ctx, "layout/layout_extracted_from", "layout/layout_extracted_from/mutates-input",
+              L.layout_extracted_from, [L] + owned, extraction_region=w2)
     for s, r in zip(SLOTS, regions):
-        got = getattr(E, s)
-        if r is None:
-            ctx.check(got is None, "layout/layout_extracted_from/none-slot", "%s was None, became %s" % (s, got))
-            continue
-        check_extract_one(idx, r, win, ctx, got, "layout/layout_extracted_from", "Layout2D.%s" % s)
-    return E
+        if r is not None:
+            check_extract_one(idx, r, list(w2), ctx, getattr(E2, s), "layout/layout_extracted_from", "Layout2D.%s (second window)" % s)
+    for E, want in results:
+        ctx.check(layout_regions(E) == want, "layout/earlier-layout-changed",
+                  lambda: "extracted layout re-read after a later extraction: %s want %s" % (layout_regions(E), want))
+    return results[0][0]
 
 
 def extract_nt(r, win, h, w):
     sides = 0
-    rows, cols = ref_overlap(r, win)
-    if rows and cols:
+    rows, cols = overlap_ranges(r, win)
+    if len(rows) and len(cols):
         sides = int(win[0] > r[0]) + int(win[1] < r[1]) + int(win[2] > r[2]) + int(win[3] < r[3])
     return sides == 1 or touches_edge(r, h, w), sides
 
 
 def body_enum_extract(case, ctx):
+    case = fresh(case)
     h, w, r, win, k = case["h"], case["w"], case["r"], case["win"], case["k"]
     idx = np.arange(h * w).reshape(h, w)
     nt, sides = extract_nt(r, win, h, w)
@@ -395,7 +709,9 @@ def body_enum_extract(case, ctx):
     regions = [None, None, None]
     regions[k % 3] = r
     regions[(k + 1) % 3] = [0, h, 0, w]
-    check_extract_layout(idx, regions, win, ctx)
+    # every case: tuple window, source layout and its Region2D objects unchanged; every third case also the
+    # Region2D window and a second extraction followed by a re-read of the first result
+    check_extract_layout(idx, regions, win, ctx, light=(case["j"] % 3 != 0))
 
 
 def cases_enum_extract(tier):
@@ -407,18 +723,25 @@ def cases_enum_extract(tier):
             for r in regs:
                 for win in regs:
                     k += 1
-                    yield {"h": h, "w": w, "r": r, "win": win, "k": k % 3}
+                    yield {"h": h, "w": w, "r": r, "win": win, "k": k % 3, "j": (k // 3) % 3}
 
 
 # ---------------------------------------------------------------------------------------------
 # front / trailing sub-regions
 # ---------------------------------------------------------------------------------------------
-def call_region(ctx, key, fn, want, what):
+def call_region(ctx, key, fn, want, what, parent=None):
     """Call a sub-region method.  `want` is the closed-form coordinate list; the method must return
-    exactly it when it is a valid region and raise RegionException when it is not."""
+    exactly it when it is a valid region and raise RegionException when it is not.  The parent region
+    object must keep its value whatever the outcome."""
     valid = is_valid_2d(want) if len(want) == 4 else is_valid_1d(want)
+    before = snap(parent)
     try:
-        got = fn()
+        try:
+            got = fn()
+        finally:
+            if parent is not None:
+                ctx.check(snap(parent) == before, key.split("/")[0] + "/mutates-parent",
+                          lambda: "%s changed its parent: %s -> %s" % (what, before, snap(parent)))
     except _rexc():
         ctx.check(not valid, key + "/rejects-valid", "%s: raised RegionException but %s is a valid region" % (what, want))
         return None
@@ -433,71 +756,83 @@ def call_region(ctx, key, fn, want, what):
 
 def check_front_trailing_2d(r, p, pfes, ctx, big=None):
     """r parent region, p=[p0,p1] pixel range, pfes = list of pixels_from_end values.
-    `big` = (H, W) of an index array large enough to hold every requested valid sub-region."""
+    `big` = (H, W) of a frame large enough to hold every requested valid sub-region; an index array of that
+    shape is only built up to 40000 cells, beyond that the rows / columns selected are compared by range
+    arithmetic only."""
     aa = _aa()
     R = aa.Region2D(region=tuple(r))
     y0, y1, x0, x1 = r
     p0, p1 = p
     pt = (p0, p1)
     rows, cols = y1 - y0, x1 - x0
-    if big is not None:
-        H, W = big
+    H, W = big
+    arrays = H * W <= 40000
+    if arrays:
         ys = np.arange(H)
         xs = np.arange(W)
 
     def content(got, want_rows, want_cols, key, what):
         # slicing oracle: the sub-region must select exactly these original rows / columns
-        if got is None or big is None:
+        if got is None:
+            return
+        ctx.check(range(H)[got.y_slice] == want_rows and range(W)[got.x_slice] == want_cols
+                  and range(H)[got.slice[0]] == want_rows and range(W)[got.slice[1]] == want_cols, key,
+                  lambda: "%s: selects rows %s columns %s, want %s / %s" % (
+                      what, range(H)[got.y_slice], range(W)[got.x_slice], want_rows, want_cols))
+        if not arrays:
             return
         ctx.equal(ys[got.y_slice], want_rows, key, what + " rows selected")
         ctx.equal(xs[got.x_slice], want_cols, key, what + " columns selected")
         i2 = (ys[:, None] * W + xs[None, :])
         ctx.equal(i2[got.slice], i2[np.ix_(list(want_rows), list(want_cols))], key, what + " .slice content")
 
-    par_rows = list(range(y0, y1))
-    par_cols = list(range(x0, x1))
-    trail_rows = list(range(y1, y1 + max(p1, 0) + 1))
-    trail_cols = list(range(x1, x1 + max(p1, 0) + 1))
-    front_rows_ext = list(range(y0, y0 + max(p1, 0) + 1))   # counted from the parent's first row, possibly beyond it
-    front_cols_ext = list(range(x0, x0 + max(p1, 0) + 1))
+    par_rows = range(y0, y1)
+    par_cols = range(x0, x1)
+    trail_rows = range(y1, y1 + max(p1, 0) + 1)
+    trail_cols = range(x1, x1 + max(p1, 0) + 1)
+    front_rows_ext = range(y0, y0 + max(p1, 0) + 1)   # counted from the parent's first row, possibly beyond it
+    front_cols_ext = range(x0, x0 + max(p1, 0) + 1)
 
     got = call_region(ctx, "region2d/parallel-front", lambda: R.parallel_front_region_from(pixels=pt),
-                      [y0 + p0, y0 + p1, x0, x1], "%s.parallel_front_region_from(%s)" % (r, pt))
+                      [y0 + p0, y0 + p1, x0, x1], "%s.parallel_front_region_from(%s)" % (r, pt), parent=R)
     content(got, front_rows_ext[p0:p1], par_cols, "region2d/parallel-front", "parallel front %s of %s" % (pt, r))
     got = call_region(ctx, "region2d/parallel-trailing", lambda: R.parallel_trailing_region_from(pixels=pt),
-                      [y1 + p0, y1 + p1, x0, x1], "%s.parallel_trailing_region_from(%s)" % (r, pt))
+                      [y1 + p0, y1 + p1, x0, x1], "%s.parallel_trailing_region_from(%s)" % (r, pt), parent=R)
     content(got, trail_rows[p0:p1], par_cols, "region2d/parallel-trailing", "parallel trailing %s of %s" % (pt, r))
     got = call_region(ctx, "region2d/serial-front", lambda: R.serial_front_region_from(pixels=pt),
-                      [y0, y1, x0 + p0, x0 + p1], "%s.serial_front_region_from(%s)" % (r, pt))
+                      [y0, y1, x0 + p0, x0 + p1], "%s.serial_front_region_from(%s)" % (r, pt), parent=R)
     content(got, par_rows, front_cols_ext[p0:p1], "region2d/serial-front", "serial front %s of %s" % (pt, r))
     got = call_region(ctx, "region2d/serial-trailing", lambda: R.serial_trailing_region_from(pixels=pt),
-                      [y0, y1, x1 + p0, x1 + p1], "%s.serial_trailing_region_from(%s)" % (r, pt))
+                      [y0, y1, x1 + p0, x1 + p1], "%s.serial_trailing_region_from(%s)" % (r, pt), parent=R)
     content(got, par_rows, trail_cols[p0:p1], "region2d/serial-trailing", "serial trailing %s of %s" % (pt, r))
 
     xr = R.serial_x_front_range_from(pixels=pt)
     ctx.check([int(xr[0]), int(xr[1])] == [x0 + p0, x0 + p1], "region2d/serial-x-front-range",
               "%s.serial_x_front_range_from(%s) = %s" % (r, pt, xr))
 
-    if big is not None:
+    if True:
         got = call_region(ctx, "region2d/serial-towards-roe-full",
                           lambda: R.serial_towards_roe_full_region_from(shape_2d=(H, W), pixels=pt),
-                          [0, H, x0 + p0, x0 + p1], "%s.serial_towards_roe_full_region_from(%s, %s)" % (r, (H, W), pt))
-        content(got, list(range(H)), front_cols_ext[p0:p1], "region2d/serial-towards-roe-full", "serial towards roe full")
+                          [0, H, x0 + p0, x0 + p1], "%s.serial_towards_roe_full_region_from(%s, %s)" % (r, (H, W), pt), parent=R)
+        content(got, range(H), front_cols_ext[p0:p1], "region2d/serial-towards-roe-full", "serial towards roe full")
         got = call_region(ctx, "region2d/parallel-full", lambda: R.parallel_full_region_from(shape_2d=(H, W)),
-                          [y0, y1, 0, W], "%s.parallel_full_region_from(%s)" % (r, (H, W)))
-        content(got, par_rows, list(range(W)), "region2d/parallel-full", "parallel full")
+                          [y0, y1, 0, W], "%s.parallel_full_region_from(%s)" % (r, (H, W)), parent=R)
+        content(got, par_rows, range(W), "region2d/parallel-full", "parallel full")
 
     for pfe in pfes:   # 0 (empty: must be rejected) .. the parent's own extent along that axis
         if pfe <= rows:
             got = call_region(ctx, "region2d/parallel-front-from-end",
                               lambda: R.parallel_front_region_from(pixels_from_end=pfe),
-                              [y1 - pfe, y1, x0, x1], "%s.parallel_front_region_from(pixels_from_end=%d)" % (r, pfe))
+                              [y1 - pfe, y1, x0, x1], "%s.parallel_front_region_from(pixels_from_end=%d)" % (r, pfe), parent=R)
             content(got, par_rows[rows - pfe:], par_cols, "region2d/parallel-front-from-end", "last %d rows of %s" % (pfe, r))
         if pfe <= cols:
             got = call_region(ctx, "region2d/serial-front-from-end",
                               lambda: R.serial_front_region_from(pixels_from_end=pfe),
-                              [y0, y1, x1 - pfe, x1], "%s.serial_front_region_from(pixels_from_end=%d)" % (r, pfe))
+                              [y0, y1, x1 - pfe, x1], "%s.serial_front_region_from(pixels_from_end=%d)" % (r, pfe), parent=R)
             content(got, par_rows, par_cols[cols - pfe:], "region2d/serial-front-from-end", "last %d columns of %s" % (pfe, r))
+
+
+    ctx.check(rcoords(R) == list(r), "region2d/mutates-parent", "parent %s is now %s" % (r, rcoords(R)))
 
 
 def check_front_trailing_1d(r, p, pfes, ctx, n=None):
@@ -506,25 +841,30 @@ def check_front_trailing_1d(r, p, pfes, ctx, n=None):
     x0, x1 = r
     p0, p1 = p
     pt = (p0, p1)
-    xs = np.arange(n) if n is not None else None
+    xs = np.arange(n) if n <= 200000 else None
 
     def content(got, want, key, what):
-        if got is None or xs is None:
+        if got is None:
+            return
+        ctx.check(range(n)[got.slice] == want and range(n)[got.x_slice] == want, key,
+                  lambda: "%s: selects %s want %s" % (what, range(n)[got.slice], want))
+        if xs is None:
             return
         ctx.equal(xs[got.slice], want, key, what + " .slice")
         ctx.equal(xs[got.x_slice], want, key, what + " .x_slice")
 
     got = call_region(ctx, "region1d/front", lambda: R.front_region_from(pixels=pt),
-                      [x0 + p0, x0 + p1], "%s.front_region_from(%s)" % (r, pt))
-    content(got, list(range(x0, x0 + max(p1, 0) + 1))[p0:p1], "region1d/front", "front %s of %s" % (pt, r))
+                      [x0 + p0, x0 + p1], "%s.front_region_from(%s)" % (r, pt), parent=R)
+    content(got, range(x0, x0 + max(p1, 0) + 1)[p0:p1], "region1d/front", "front %s of %s" % (pt, r))
     got = call_region(ctx, "region1d/trailing", lambda: R.trailing_region_from(pixels=pt),
-                      [x1 + p0, x1 + p1], "%s.trailing_region_from(%s)" % (r, pt))
-    content(got, list(range(x1, x1 + max(p1, 0) + 1))[p0:p1], "region1d/trailing", "trailing %s of %s" % (pt, r))
+                      [x1 + p0, x1 + p1], "%s.trailing_region_from(%s)" % (r, pt), parent=R)
+    content(got, range(x1, x1 + max(p1, 0) + 1)[p0:p1], "region1d/trailing", "trailing %s of %s" % (pt, r))
     tot = x1 - x0
     for pfe in pfes:
         got = call_region(ctx, "region1d/front-from-end", lambda: R.front_region_from(pixels_from_end=pfe),
-                          [x1 - pfe, x1], "%s.front_region_from(pixels_from_end=%d)" % (r, pfe))
-        content(got, list(range(x0, x1))[tot - pfe:], "region1d/front-from-end", "last %d pixels of %s" % (pfe, r))
+                          [x1 - pfe, x1], "%s.front_region_from(pixels_from_end=%d)" % (r, pfe), parent=R)
+        content(got, range(x0, x1)[tot - pfe:], "region1d/front-from-end", "last %d pixels of %s" % (pfe, r))
+    ctx.check([int(R[0]), int(R[1])] == list(r), "region1d/mutates-parent", "parent %s is now %s" % (r, [int(R[0]), int(R[1])]))
 
 
 def ft_labels(p, ctx):
@@ -539,6 +879,7 @@ def ft_labels(p, ctx):
 
 
 def body_enum_front_trailing(case, ctx):
+    case = fresh(case)
     p = case["p"]
     ft_labels(p, ctx)
     if case["dim"] == 2:
@@ -649,9 +990,12 @@ def check_ctor_1d(t, ctx):
         R = aa.Region1D(region=tuple(t))
         x0, x1 = t
         ctx.check([R.x0, R.x1] == list(t) and R.total_pixels == x1 - x0, "region1d/accessors", "x0,x1,total_pixels of %s" % (t,))
-        xs = np.arange(x1 + 2)
-        ctx.equal(xs[R.slice], list(range(x0, x1)), "region1d/slice", "slice of %s" % (t,))
-        ctx.equal(xs[R.x_slice], list(range(x0, x1)), "region1d/slice", "x_slice of %s" % (t,))
+        ctx.check(range(x1 + 2)[R.slice] == range(x0, x1) and range(x1 + 2)[R.x_slice] == range(x0, x1),
+                  "region1d/slice", "slice / x_slice of %s (range arithmetic)" % (t,))
+        if x1 <= 5000:
+            xs = np.arange(x1 + 2)
+            ctx.equal(xs[R.slice], list(range(x0, x1)), "region1d/slice", "slice of %s" % (t,))
+            ctx.equal(xs[R.x_slice], list(range(x0, x1)), "region1d/slice", "x_slice of %s" % (t,))
         ctx.check(R == tuple(t), "region1d/eq", "Region1D(t) == t for %s" % (t,))
     for s in ("prescan", "overscan"):
         L, raised = try_ctor(lambda: aa.Layout1D(shape_1d=(max(t[1], 1) + 1,), **{s: tuple(t)}))
@@ -671,6 +1015,7 @@ def check_ctor_1d(t, ctx):
 
 
 def body_enum_constructors(case, ctx):
+    case = fresh(case)
     t = case["t"]
     if len(t) == 4:
         valid = is_valid_2d(t)
@@ -751,6 +1096,231 @@ def window_for(draw, h, w, r):
     return axis(h, r[0], r[1]) + axis(w, r[2], r[3])
 
 
+# ---------------------------------------------------------------------------------------------
+# large coordinates with explicit boundary relations (range arithmetic only, no index arrays)
+# ---------------------------------------------------------------------------------------------
+BASES_QUICK = [0, 1, 255, 256, 257, 300, 2066, 32767, 32768, 40000, 65536, 70000, 2 ** 31 - 1, 2 ** 31, 2 ** 31 + 300]
+BASES_THOROUGH = BASES_QUICK + [2, 200, 254, 258, 511, 512, 513, 1000, 2048, 4096, 32769, 65535, 65537, 69999,
+                                2 ** 31 - 257, 2 ** 31 + 1, 2 ** 32, 2 ** 32 + 257, 2 ** 63 - 1, 2 ** 63 + 5]
+LENGTHS_QUICK = [1, 2, 20, 300, 40000]
+LENGTHS_THOROUGH = LENGTHS_QUICK + [3, 256, 257, 2 ** 15, 2 ** 31]
+MARGINS = [1, 2, 257, 300, 40000]
+
+
+def boundary_class(a, b, c, d):
+    """Relation of window [c,d) to region [a,b) on one axis, boundary cases named."""
+    if d == a or c == b:
+        return "abutting"
+    if d == a - 1 or c == b + 1:
+        return "gap1"
+    if d < a or c > b:
+        return "disjoint"
+    n = min(b, d) - max(a, c)
+    if (c, d) == (a, b):
+        return "equal"
+    if c >= a and d <= b:
+        return "nested-equal-edge" if (c == a or d == b) else "nested"
+    if c <= a and d >= b:
+        return "containing-equal-edge" if (c == a or d == b) else "containing"
+    return "overlap1" if n == 1 else "partial"
+
+
+def axis_relations(a, L):
+    """Windows in every boundary relation to the region [a, a+L)."""
+    b = a + L
+    out = []
+
+    def add(c, d):
+        if 0 <= c < d and (c, d) not in out:
+            out.append((c, d))
+
+    for m in MARGINS + [a]:
+        add(a - m, a)              # abutting: window ends where the region starts
+        add(a - 1 - m, a - 1)      # gap of one pixel
+        add(a - m, a + 1)          # overlap of exactly one pixel (low side)
+        add(a - m, b)              # contains, equal high edge
+        add(a - m, b + m)          # contains
+        add(a - m, b - 1)          # clips the high side by one
+    for m in MARGINS[:4]:
+        add(b, b + m)              # abutting: window starts where the region ends
+        add(b + 1, b + 1 + m)      # gap of one pixel
+        add(b - 1, b + m)          # overlap of exactly one pixel (high side)
+        add(a, b + m)              # contains, equal low edge
+        add(a + 1, b + m)          # clips the low side by one
+    add(a, b)
+    add(a, b - 1)
+    add(a + 1, b)
+    add(a + 1, b - 1)
+    add(a, a + 1)
+    add(b - 1, b)
+    add(0, b + 1)
+    add(0, a + 1)
+    return out
+
+
+# (region, window) on the other axis: mostly overlapping so that the focus axis decides the answer
+AXIS_REPS = [(0, 1, 0, 1), (3, 8, 0, 10), (51, 2099, 0, 2128), (300, 600, 0, 301), (2066, 2086, 0, 2086),
+             (70000, 70300, 69000, 70001), (2 ** 31, 2 ** 31 + 5, 2 ** 31 - 300, 2 ** 31 + 1),
+             (300, 600, 0, 300), (0, 5, 7, 9)]
+CCD = {"shape": [2086, 2128], "regions": [[2066, 2086, 51, 2099], [0, 2086, 0, 51], [0, 2066, 2099, 2128],
+                                          [0, 2066, 51, 2099], [0, 2086, 0, 2128], [0, 2066, 0, 2128]]}
+
+
+def cases_enum_large(tier):
+    bases = BASES_QUICK if tier == "quick" else BASES_THOROUGH
+    lengths = LENGTHS_QUICK if tier == "quick" else LENGTHS_THOROUGH
+    reps = AXIS_REPS if tier != "quick" else [AXIS_REPS[i] for i in (1, 2, 5, 7)]
+    k = 0
+    for a in bases:
+        for L in lengths:
+            for (c, d) in axis_relations(a, L):
+                f = [a, a + L, c, d]
+                for rep in reps:
+                    for focus in ("y", "x"):
+                        k += 1
+                        y, x = (f, list(rep)) if focus == "y" else (list(rep), f)
+                        yield {"y": y, "x": x, "pad": [0, 1, 257][k % 3], "c": CORNERS[k % 4], "k": k % 3}
+    # a realistic CCD quadrant: every named region against every named region as window, all corners
+    h, w = CCD["shape"]
+    for r in CCD["regions"]:
+        for win in CCD["regions"]:
+            for c in CORNERS:
+                k += 1
+                yield {"y": [r[0], r[1], win[0], win[1]], "x": [r[2], r[3], win[2], win[3]], "shape": [h, w],
+                       "c": c, "k": k % 3}
+
+
+def magnitude_label(v):
+    if v <= 256:
+        return "<=256"
+    if v <= 2 ** 15:
+        return "<=2^15"
+    if v <= 2 ** 31:
+        return "<=2^31"
+    return ">2^31"
+
+
+def check_chain_ranges(shape, regions, win, corner, ctx):
+    """Rotate the layout and the window, extract in the rotated frame: each surviving region must address,
+    through the rotated window, exactly the original rows/columns of region ∩ window (range arithmetic)."""
+    aa = _aa()
+    lu = _util()
+    h, w = shape
+    c = tuple(corner)
+    L0 = make_layout(shape, regions)
+    Lr = pure(ctx, "chain/new_rotated_from", "layout/new_rotated_from/mutates-argument", L0.new_rotated_from, [L0], roe_corner=c)
+    wobj = aa.Region2D(region=tuple(win))
+    Wr = pure(ctx, "chain/rotate-window", "rotate-region/mutates-argument", lu.rotate_region_via_roe_corner_from,
+              [wobj], region=wobj, shape_native=(h, w), roe_corner=c)
+    check_rotated_region(Wr, win, (h, w), corner, ctx, "rotate-region/reflection/" + ckey(corner), "window")
+    Wref = rot_want(win, (h, w), corner)
+    Le = pure(ctx, "chain/layout_extracted_from", "layout/layout_extracted_from/mutates-input", Lr.layout_extracted_from,
+              [Lr, Wr, L0], extraction_region=Wr)
+    for s, r in zip(SLOTS, regions):
+        got = getattr(Le, s)
+        if r is None:
+            ctx.check(got is None, "chain/none-slot", "%s was None, became %s" % (s, got))
+            continue
+        rows, cols = overlap_ranges(r, win)
+        if len(rows) == 0 or len(cols) == 0:
+            ctx.check(got is None, "chain/missing-none", lambda: "slot %s region %s window %s corner %s -> %s, want None"
+                      % (s, r, win, c, rcoords(got)))
+            continue
+        if got is None:
+            ctx.fail("chain/spurious-none", "slot %s region %s window %s corner %s -> None, overlap rows %s cols %s"
+                     % (s, r, win, c, rows, cols))
+            continue
+        g = rcoords(got)
+        wh, ww = win[1] - win[0], win[3] - win[2]
+        ctx.check(0 <= g[0] < g[1] <= wh and 0 <= g[2] < g[3] <= ww, "chain/outside-window",
+                  "slot %s -> %s does not fit the %dx%d window" % (s, g, wh, ww))
+        sel_rows = axis_selected(h, corner[0] == 0, Wref[0] + g[0], Wref[0] + g[1])
+        sel_cols = axis_selected(w, corner[1] == 1, Wref[2] + g[2], Wref[2] + g[3])
+        ctx.check(sel_rows == rows and sel_cols == cols, "chain/rotate-then-extract/" + ckey(corner),
+                  lambda: "slot %s region %s window %s -> %s selects rows %s cols %s want %s / %s"
+                  % (s, r, win, g, sel_rows, sel_cols, rows, cols))
+
+
+def body_large(case, ctx):
+    case = fresh(case)
+    y, x, corner, k = case["y"], case["x"], case["c"], case["k"]
+    r = [y[0], y[1], x[0], x[1]]
+    win = [y[2], y[3], x[2], x[3]]
+    if "shape" in case:
+        h, w = case["shape"]
+    else:
+        h = max(y[1], y[3]) + case["pad"]
+        w = max(x[1], x[3]) + case["pad"]
+    by, bx = boundary_class(*y), boundary_class(*x)
+    ctx.label("rel:" + by, "rel:" + bx, ckey(corner))
+    ctx.label("magnitude:" + magnitude_label(max(h, w)))
+    off = max(abs(y[0] - y[2]), abs(x[0] - x[2]))
+    ctx.label("offset-in-window:" + magnitude_label(off))
+    boundary = {"abutting", "gap1", "overlap1", "equal", "nested-equal-edge", "containing-equal-edge"}
+    ctx.nt((by in boundary or bx in boundary) and max(h, w) > 256)
+
+    idx = np.arange(h * w).reshape(h, w) if h * w <= SMALL_CELLS else None
+    # extraction: util (tuple and Region2D arguments), Layout2D (three slots), argument purity
+    check_extract_util(idx, r, win, ctx)
+    regions = [None, None, None]
+    regions[k % 3] = r
+    regions[(k + 1) % 3] = [0, h, 0, w]
+    check_extract_layout(idx, regions, win, ctx, shape=(h, w), win2=case.get("win2"))
+    # rotation of region and window in the large frame, reuse of one object for all corners
+    check_rotate_region((h, w), r, corner, ctx)
+    check_rotate_region((h, w), win, corner, ctx)
+    if k == 0 or "shape" in case:
+        check_rotate_reuse((h, w), r, corner, ctx)
+        check_layout_reuse((h, w), regions, corner, ctx)
+    # rotate, then extract in the rotated frame
+    check_chain_ranges((h, w), regions, win, corner, ctx)
+
+
+def big_ints(lo=0):
+    return st.one_of(st.integers(lo, 6), st.integers(lo, 300), st.integers(250, 262), st.integers(2000, 2200),
+                     st.integers(32760, 32775), st.integers(65530, 65540), st.integers(lo, 70000),
+                     st.integers(2 ** 31 - 3, 2 ** 31 + 300))
+
+
+@st.composite
+def axis_pair(draw):
+    """[a, b, c, d]: region [a,b) and window [c,d) in a drawn boundary relation at a drawn magnitude."""
+    a = draw(big_ints(0))
+    L = draw(st.one_of(st.integers(1, 3), st.integers(1, 400), st.integers(1, 70000)))
+    b = a + L
+    m = draw(st.one_of(st.integers(1, 3), st.integers(255, 258), st.integers(1, 70000)))
+    m2 = draw(st.one_of(st.integers(1, 3), st.integers(255, 258), st.integers(1, 70000)))
+    kind = draw(st.sampled_from(["abut-before", "abut-after", "gap1-before", "gap1-after", "overlap1-low",
+                                 "overlap1-high", "equal", "equal-low", "equal-high", "nested", "containing",
+                                 "clip-low", "clip-high", "disjoint"]))
+    lo = max(a - m, 0)
+    cand = {
+        "abut-before": (lo, a), "abut-after": (b, b + m), "gap1-before": (max(a - 1 - m, 0), a - 1),
+        "gap1-after": (b + 1, b + 1 + m), "overlap1-low": (lo, a + 1), "overlap1-high": (b - 1, b + m),
+        "equal": (a, b), "equal-low": (a, b + m if m % 2 else max(a + 1, b - 1)),
+        "equal-high": (lo if m % 2 else min(a + 1, b - 1), b), "nested": (min(a + m2 % L, b - 1), b - (1 if L > 1 else 0)),
+        "containing": (lo, b + m2), "clip-low": (min(a + 1 + m2 % L, b), b + m), "clip-high": (lo, max(b - 1 - m2 % L, a)),
+        "disjoint": (b + 1 + m2, b + 1 + m2 + m),
+    }[kind]
+    c, d = cand
+    if not (0 <= c < d):
+        c, d = a, b
+    return [a, b, c, d]
+
+
+@st.composite
+def given_large(draw):
+    y = draw(axis_pair())
+    x = draw(axis_pair())
+    case = {"y": y, "x": x, "pad": draw(st.sampled_from([0, 1, 257, 40000])), "c": draw(st.sampled_from(CORNERS)),
+            "k": draw(st.integers(0, 2))}
+    if draw(st.booleans()):
+        h = max(y[1], y[3]) + case["pad"]
+        w = max(x[1], x[3]) + case["pad"]
+        case["win2"] = draw(interval_in(h)) + draw(interval_in(w))
+    return case
+
+
 @st.composite
 def given_rotate_extract(draw):
     big = draw(st.sampled_from([False, False, True]))
@@ -769,6 +1339,7 @@ def given_rotate_extract(draw):
 
 
 def body_given_rotate_extract(case, ctx):
+    case = fresh(case)
     aa = _aa()
     h, w, regions, win, corner = case["h"], case["w"], case["regions"], case["win"], case["c"]
     c = tuple(corner)
@@ -798,10 +1369,16 @@ def body_given_rotate_extract(case, ctx):
     check_rotate_layout(arr, regions, corner, ctx)
     check_rotate_arrays(idx, regions, corner, ctx)
 
+    first = next(r for r in regions if r is not None)
+    check_rotate_reuse((h, w), first, corner, ctx)
+    check_rotate_pattern((h, w), [r for r in regions if r is not None], corner, ctx)
+    check_layout_reuse((h, w), regions, corner, ctx)
+
     # 2. extraction in the original frame
     for r in regions:
         check_extract_util(idx, r, win, ctx)
     check_extract_layout(idx, regions, win, ctx, corner=corner)
+    check_chain_ranges((h, w), regions, win, corner, ctx)
 
     # 3. end to end: rotate layout and array, extract the rotated window, read the regions out of the
     #    extracted sub-array; must be the (reference-)rotated content of region ∩ window, None iff empty
@@ -844,11 +1421,11 @@ def body_given_rotate_extract(case, ctx):
 def given_front_trailing(draw):
     dim = draw(st.sampled_from([2, 2, 1]))
     big = draw(st.booleans())
-    m = 3000 if big else 30
+    m = 70000 if big else 30
     def ext():
-        return draw(st.one_of(st.integers(1, 6), st.integers(1, m)))
+        return draw(st.one_of(st.integers(1, 6), big_ints(1) if big else st.integers(1, m)))
     def start():
-        return draw(st.one_of(st.just(0), st.integers(0, 5), st.integers(0, m)))
+        return draw(st.one_of(st.just(0), st.integers(0, 5), big_ints(0) if big else st.integers(0, m)))
     kind = draw(st.sampled_from(["valid", "valid", "valid", "inside", "empty", "reversed"]))
     if dim == 2:
         y0, x0 = start(), start()
@@ -876,6 +1453,7 @@ def given_front_trailing(draw):
 
 
 def body_given_front_trailing(case, ctx):
+    case = fresh(case)
     r, p, pfes = case["r"], case["p"], case["pfes"]
     ft_labels(p, ctx)
     ctx.label("dim:%d" % case["dim"])
@@ -887,10 +1465,9 @@ def body_given_front_trailing(case, ctx):
         if p[0] < p[1] and p[1] <= min(r[1] - r[0], r[3] - r[2]):
             ctx.label("pixels:inside-parent")
         H, W = r[1] + pm + 2, r[3] + pm + 2
-        big = (H, W) if H * W <= 40000 else None
-        if big is None:
-            ctx.label("content-check:skipped-large")
-        check_front_trailing_2d(r, p, pfes, ctx, big=big)
+        if H * W > 40000:
+            ctx.label("content-check:ranges-only")
+        check_front_trailing_2d(r, p, pfes, ctx, big=(H, W))
     else:
         ctx.nt((p[0] > 0 and p[0] < p[1]) or r[0] == 0)
         if p[0] < p[1] and p[1] <= r[1] - r[0]:
@@ -904,11 +1481,11 @@ def given_constructors(draw):
     n = 2 * dim
     kind = draw(st.sampled_from(["valid", "valid", "negative", "empty", "reversed", "reversed", "any"]))
     big = draw(st.booleans())
-    m = 5000 if big else 12
+    m = 70000 if big else 12
     t = []
     for _ in range(dim):
-        a = draw(st.integers(0, m))
-        t += [a, a + draw(st.integers(1, m))]
+        a = draw(big_ints(0) if big else st.integers(0, m))
+        t += [a, a + draw(st.one_of(st.integers(1, 3), st.integers(1, m)))]
     if kind == "negative":
         k = draw(st.integers(0, n - 1))
         t[k] = -draw(st.integers(1, m))
@@ -927,6 +1504,7 @@ def given_constructors(draw):
 
 
 def body_given_constructors(case, ctx):
+    case = fresh(case)
     t = case["t"]
     if max(abs(v) for v in t) > 60:
         ctx.label("coords:large")
@@ -950,8 +1528,9 @@ def _ctor_2d_large(t, ctx):
         ctx.check(not raised, "region2d/ctor-rejects-valid", "Region2D(%s) raised RegionException" % (t,))
         if R is not None:
             ctx.check(rcoords(R) == list(t) and tuple(R.shape) == (t[1] - t[0], t[3] - t[2]), "region2d/accessors", "%s" % (t,))
-            ctx.equal(np.arange(t[1] + 2)[R.y_slice], np.arange(t[0], t[1]), "region2d/slice", "y_slice of %s" % (t,))
-            ctx.equal(np.arange(t[3] + 2)[R.x_slice], np.arange(t[2], t[3]), "region2d/slice", "x_slice of %s" % (t,))
+            ctx.check(range(t[1] + 2)[R.y_slice] == range(t[0], t[1]) and range(t[3] + 2)[R.x_slice] == range(t[2], t[3])
+                      and range(t[1] + 2)[R.slice[0]] == range(t[0], t[1]) and range(t[3] + 2)[R.slice[1]] == range(t[2], t[3]),
+                      "region2d/slice", "y_slice / x_slice / slice of %s (range arithmetic)" % (t,))
     else:
         ctx.check(raised, "region2d/ctor-accepts-invalid/" + cls, "Region2D(%s) was accepted" % (t,))
     for s in SLOTS:
@@ -963,7 +1542,7 @@ def _ctor_2d_large(t, ctx):
 
 
 SUBCHECKS = [
-    SubCheck("enum_rotate", body_enum_rotate, cases=cases_enum_rotate, shards={"quick": 8, "thorough": 16},
+    SubCheck("enum_rotate", body_enum_rotate, cases=cases_enum_rotate, shards={"quick": 16, "thorough": 16},
              doc="exhaustive: shapes x regions x corners; util, Layout2D and Array2D entry points"),
     SubCheck("enum_extract", body_enum_extract, cases=cases_enum_extract, shards={"quick": 16, "thorough": 16},
              doc="exhaustive: shapes x regions x windows; region_after_extraction and Layout2D.layout_extracted_from"),
@@ -975,6 +1554,12 @@ SUBCHECKS = [
     SubCheck("given_rotate_extract", body_given_rotate_extract, strategy=given_rotate_extract(),
              examples={"quick": 400, "thorough": 8000}, shards={"quick": 4, "thorough": 16},
              doc="shapes up to 40x40, three layout slots, rotate -> extract chain through every entry point"),
+    SubCheck("enum_large", body_large, cases=cases_enum_large, shards={"quick": 16, "thorough": 16},
+             doc="coordinates up to 2**31+ (quick) / 2**63+ (thorough): every boundary relation between region and window "
+                 "per axis x magnitudes x corners, plus a 2086x2128 CCD quadrant; range arithmetic only"),
+    SubCheck("given_large", body_large, strategy=given_large(), examples={"quick": 600, "thorough": 10000},
+             shards={"quick": 4, "thorough": 16},
+             doc="Hypothesis: both axes in drawn boundary relations at drawn magnitudes (<=70000 and around 2**15, 2**31)"),
     SubCheck("given_front_trailing", body_given_front_trailing, strategy=given_front_trailing(),
              examples={"quick": 400, "thorough": 6000}, shards={"quick": 2, "thorough": 8}),
     SubCheck("given_constructors", body_given_constructors, strategy=given_constructors(),
